@@ -182,8 +182,9 @@ def hollow_world(tag, ci, upd, sortopt, shape):
     w = World(tag)
     w.add(mode_line(ci, upd))
     w.add(cfg_line(1, 'snaps', 'f', None, 'false'))
-    content = {'empty': b'', 'blank': b'\n\n', 'unterminated': b'\n[TestC - 1]\nvalue one\n'}[shape]
-    w.add('fsput %s %s' % (hx('snaps/f.snap'), hx(content)))
+    content = {'empty': b'', 'blank': b'\n\n', 'unterminated': b'\n[TestC - 1]\nvalue one\n', 'absent': None}[shape]
+    if content is not None:
+        w.add('fsput %s %s' % (hx('snaps/f.snap'), hx(content)))
     w.add('fsput %s %s' % (hx('snaps/notes.txt'), hx(b'keep me')))
     w.add('begin 1 %s' % hx(b'TestC'))
     w.add('snap 1 1 %s' % hx(b'value one'), ('missing-entry-fails-without-writing', suites.exp_one_error_no_write))
@@ -236,7 +237,7 @@ def all_cells(envfilter=None):
         for eol in ('crlf', 'gaps'):
             n += 1
             worlds.append(clean_world('clean-%d-%s' % (n, eol), ci, upd, sortopt, stale, sorted_file, eol=eol))
-    for ci, upd, sortopt, shape in itertools.product([False, True], UPDS, ['-', '1'], ['empty', 'blank', 'unterminated']):
+    for ci, upd, sortopt, shape in itertools.product([False, True], UPDS, ['-', '1'], ['empty', 'blank', 'unterminated', 'absent']):
         if envfilter and envfilter != (ci, upd):
             continue
         n += 1
